@@ -19,7 +19,6 @@ import (
 
 	"gitlab.com/yawning/obfs4.git/common/socks5"
 	"gitlab.com/yawning/obfs4.git/transports"
-	"gitlab.com/yawning/obfs4.git/transports/scramblesuit"
 
 	"verif/memwire"
 	"verif/mon"
@@ -58,7 +57,12 @@ func ssCase(c *mon.Case, r *mon.Run, dir string, f fault, attack string, seed ui
 	if useTicket {
 		attack = ""
 		body, _ := srv.IssueTicket()
-		if err := scramblesuit.VerifStoreTicket(dir, &net.TCPAddr{IP: net.ParseIP("192.0.2.2"), Port: 443}, body); err != nil {
+		err, hooked := storeTicket(dir, &net.TCPAddr{IP: net.ParseIP("192.0.2.2"), Port: 443}, body)
+		if !hooked {
+			r.Count("ss_ticket_flavour_skipped_without_the_ticket_hook", 1)
+			return
+		}
+		if err != nil {
 			c.Violation("setup/ss-ticket-store", err.Error(), nil)
 			return
 		}
@@ -215,11 +219,11 @@ func ssCase(c *mon.Case, r *mon.Run, dir string, f fault, attack string, seed ui
 	}
 	if cs.returned && cs.err == nil {
 		r.Count("established_scramblesuit", 1)
-		if u, d, ok := scramblesuit.VerifBuffered(cs.conn); ok {
-			r.Max("max_buffered_scramblesuit", int64(u+d))
+		if n, ok := buffered("scramblesuit", cs.conn); ok {
+			r.Max("max_buffered_scramblesuit", int64(n))
 			r.Count("buffer_checks", 1)
-			if u+d > bufferBound {
-				c.Violation("bloat/scramblesuit/"+name, fmt.Sprintf("%d bytes buffered", u+d), wit)
+			if n > bufferBound {
+				c.Violation("bloat/scramblesuit/"+name, fmt.Sprintf("%d bytes buffered", n), wit)
 			}
 		}
 		if mm >= 0 && f.kind != "flip" {
